@@ -150,3 +150,167 @@ package kafka
 //@   loop 0 invariant forall k :: 0 <= k && k <= rangeindex ==> commits[k].partition == msgs[k].Partition && commits[k].offset == msgs[k].Offset + 1 && same(commits[k].topic, msgs[k].Topic)
 //@   loop 0 modifies elems(commits)
 //@   loop 0 decreases len(msgs) - rangeindex
+
+//@ property C08 C07 C01
+
+//@ func (*Message).totalSize
+//@   pure
+//@   unproved post#0 sizes are sums of non-negative terms; int32 wrap-around for messages larger than 2 GiB is outside the stated input invariants
+//@   ensures result >= 0
+//@   assume a message's key, value and headers are not modified while the Writer holds it (documented requirement of WriteMessages)
+//@ func (*Message).size
+//@   pure
+//@ func sizeofBytes
+//@   pure
+//@   ensures len(b) <= 0x7ffffff0 ==> result == 4 + int32(len(b))
+//@ func sizeofString
+//@   pure
+//@   ensures len(s) <= 0x7ffffff0 ==> result == 2 + int32(len(s))
+//@ func (*Message).headerSize
+//@   pure
+//@   trusted sizes of varint-framed headers (C04/C05 cover the encoding); only used as an opaque function here
+//@ func (*Writer).batchSize
+//@   pure
+//@   reads w.BatchSize
+//@   ensures result >= 1
+//@   ensures w.BatchSize > 0 ==> result == w.BatchSize
+//@ func (*Writer).batchBytes
+//@   pure
+//@   reads w.BatchBytes
+//@   ensures result >= 1
+//@   ensures w.BatchBytes > 0 ==> result == w.BatchBytes
+
+//@ spec wbOK(b any) bool
+//@   macro
+//@   def b != nil && b.size == len(b.msgs) && b.size >= 0 && b.bytes >= 0
+
+//@ func (*writeBatch).add
+//@   requires wbOK(b) && maxSize >= 1 && maxSize <= 0x7fffffff && b.size < maxSize
+//@   let n = int64(msg.totalSize())
+//@   requires n >= 0
+//@   modifies b.size, b.bytes, b.msgs, capacity(b.msgs)
+//@   ensures result == (old(b.size) == 0 || old(b.bytes) + n <= maxBytes)
+//@   ensures result ==> wbOK(b) && b.size == old(b.size) + 1 && b.bytes == old(b.bytes) + n
+//@   ensures !result ==> unchanged(b.size) && unchanged(b.bytes) && len(b.msgs) == old(len(b.msgs))
+
+//@ func (*writeBatch).full
+//@   pure
+//@   ensures result == (b.size >= maxSize || b.bytes >= maxBytes)
+
+//@ lock (*partitionWriter).mutex as ptw
+//@   guards currBatch, currBatch->size, currBatch->bytes, currBatch->msgs
+//@   invariant ptwInv(ptw)
+
+// an attached batch is well formed, non-empty and NOT full: it can always take the next message or be refused by add
+//@ spec ptwInv(ptw any) bool
+//@   macro
+//@   def ptw.currBatch != nil ==> wbOK(ptw.currBatch) && ptw.currBatch.size >= 1 && ptw.currBatch.size < ptw.w.batchSize() && ptw.currBatch.bytes < ptw.w.batchBytes()
+
+//@ lock (*batchQueue).mutex as b
+//@   option via cond.L
+//@   guards queue, closed
+
+//@ func (*batchQueue).Put
+//@   requires batch != nil
+//@   option noframe
+//@   modifies b.queue, b.closed, capacity(b.queue)
+//@ func (*batchQueue).Close
+//@   option noframe
+//@   modifies b.closed
+//@ func (*writeBatch).trigger
+//@   requires b != nil
+
+//@ func (*Writer).batchTimeout
+//@   pure
+//@   reads w.BatchTimeout
+//@ func newWriteBatch
+//@   ensures wbOK(result) && result.size == 0 && result.bytes == 0 && fresh(result)
+//@ func (*Writer).spawn
+//@   trusted starts a goroutine under the writer's WaitGroup: no effect on memory the contracts mention
+//@ func (*partitionWriter).newWriteBatch
+//@   ensures wbOK(result) && result.size == 0 && result.bytes == 0 && fresh(result)
+
+//@ func (*partitionWriter).writeMessages
+//@   assume batch message arrays (writeBatch.msgs backing stores) are owned by their batch and never alias a slice supplied by a caller
+//@   modifies region(partitionWriter.currBatch), region(partitionWriter.queue), region(writeBatch.size), region(writeBatch.bytes), region(writeBatch.msgs)
+//@   requires ptw.w != nil && ptw.w.batchSize() <= 0x7fffffff
+//@   requires forall k :: 0 <= k && k < len(indexes) ==> 0 <= indexes[k] && int(indexes[k]) < len(msgs)
+//@   requires forall k :: 0 <= k && k < len(indexes) ==> 0 <= int64(msgs[indexes[k]].totalSize()) && int64(msgs[indexes[k]].totalSize()) <= ptw.w.batchBytes()
+//@   ensures ptw.w.Async ==> result == nil
+//@   option noframe
+//@   callsite (*batchQueue).Put requires held(ptw.mutex) && $1 != nil && $1.size >= 1 && $1.size <= ptw.w.batchSize() && $1.bytes <= ptw.w.batchBytes()
+//@   unproved index@"batch.add(msgs[i]" the loop appends to the slices stored in the result map; without ownership information the verifier cannot exclude that such an append overwrites the backing array of `indexes`, so the element facts about `indexes` are lost at the loop head
+//@   unproved pre@"batch.add(msgs[i]" same reason (the size bound of msgs[i] is a fact about indexes[k])
+//@   loop 0 invariant ptwInv(ptw) && -1 <= rangeindex
+//@   loop 1 unroll 2
+
+// Per-partition order (C07): a batch enters the FIFO queue only while ptw.mutex is held, i.e. atomically with being
+// detached from currBatch, so no later batch of the partition can be queued in between.
+//@ func (*partitionWriter).awaitBatch
+//@   option noframe
+//@   callsite (*batchQueue).Put requires held(ptw.mutex) && $1 != nil && $1.size >= 1 && $1.size <= ptw.w.batchSize() && $1.bytes <= ptw.w.batchBytes()
+//@ func (*partitionWriter).close
+//@   option noframe
+//@   callsite (*batchQueue).Put requires held(ptw.mutex) && $1 != nil && $1.size >= 1 && $1.size <= ptw.w.batchSize() && $1.bytes <= ptw.w.batchBytes()
+//@ func (*Writer).stats
+//@   trusted statistics only
+//@ func (*summary).observe
+//@   trusted statistics only (atomic counters)
+
+//@ func (*Writer).enter
+//@   option noframe
+//@   modifies region(Writer.closed)
+//@ func (*Writer).leave
+//@   trusted WaitGroup bookkeeping
+//@ func (*Writer).balancer
+//@   pure
+//@   reads w.Balancer
+//@ func (*Writer).partitions
+//@   trusted performs a metadata round trip through the Transport; it does not touch the caller's messages (C12/C19 cover the exchange)
+//@   ensures result1 == nil ==> result0 >= 0
+//@ func loadCachedPartitions
+//@   trusted returns the cached slice 0..numPartitions-1 (its contents are the subject of C13)
+//@   ensures len(result) == numPartitions || numPartitions < 0
+//@ func messageTooLarge
+//@   requires 0 <= i && i < len(msgs)
+//@   option noframe
+//@   modifies nothing
+//@ func (*Writer).chooseTopic
+//@   ensures result1 == nil ==> len(result0) > 0
+
+//@ iface Balancer.Balance
+//@   trusted a Balancer does not modify the message it is given (it receives it by value) nor the writer's state; which partition it returns is the subject of C13
+//@   modifies region($hstate)
+
+// C08, second sentence: a message larger than BatchBytes is rejected before anything of the call is enqueued.
+//@ lock (*Writer).mutex as w
+//@   guards closed, writers
+//@   invariant forall kid ref :: inmap(w.writers, kid) ==> mapat(w.writers, kid) != nil && mapat(w.writers, kid).w == w
+//@   invariant w.batchSize() <= 0x7fffffff
+
+//@ func newBatchQueue
+//@   requires 0 <= initialSize && initialSize <= 0x10000
+//@   option noframe
+//@   modifies nothing
+//@ func newPartitionWriter
+//@   option noframe
+//@   modifies nothing
+//@   ensures result != nil && fresh(result) && result.w == w && result.currBatch == nil
+
+//@ func (*Writer).batchMessages
+//@   option noframe
+//@   modifies heap
+//@   requires forall k :: 0 <= k && k < len(messages) ==> 0 <= int64(messages[k].totalSize()) && int64(messages[k].totalSize()) <= w.batchBytes()
+//@   unproved pre@"writer.writeMessages(messages, indexes)"#1 the index lists in `assignments` were built by WriteMessages from positions of `messages`; that map-content invariant (every stored index is a valid position) is not carried through the map here
+//@   loop 0 invariant forall k :: 0 <= k && k < len(messages) ==> 0 <= int64(messages[k].totalSize()) && int64(messages[k].totalSize()) <= w.batchBytes()
+//@   loop 0 invariant w.writers != nil && (forall kid ref :: inmap(w.writers, kid) ==> mapat(w.writers, kid) != nil && mapat(w.writers, kid).w == w) && w.batchSize() <= 0x7fffffff
+//@   loop 0 invariant !w.Async ==> batches != nil
+
+//@ func (*Writer).WriteMessages
+//@   option noframe
+//@   modifies heap
+//@   unproved index@"werr[i] = batch.err" the index lists returned by batchMessages hold positions of msgs; that map-content invariant is not carried through the result map
+//@   loop 0 invariant -1 <= rangeindex && batchBytes == w.batchBytes()
+//@   loop 0 invariant forall k :: 0 <= k && k <= rangeindex ==> 0 <= int64(msgs[k].totalSize()) && int64(msgs[k].totalSize()) <= batchBytes
+//@   loop 0 after forall k :: 0 <= k && k < len(msgs) ==> 0 <= int64(msgs[k].totalSize()) && int64(msgs[k].totalSize()) <= w.batchBytes()
+//@   loop 1 invariant forall k :: 0 <= k && k < len(msgs) ==> 0 <= int64(msgs[k].totalSize()) && int64(msgs[k].totalSize()) <= w.batchBytes()
